@@ -109,7 +109,12 @@ func genC08(seed int64, tier string) *Scenario {
 			if !open[n] {
 				continue
 			}
-			sc.Ops = append(sc.Ops, Op{Kind: "change", Path: n, Edits: []Edit{{Full: true, Text: c08Content(r, n)}}})
+			text := c08Content(r, n)
+			if r.Intn(3) == 0 {
+				// bias: a clean buffer over whatever the disk holds
+				text = fmt.Sprintf(c08Variants[0], strings.NewReplacer("/", "_", ".", "_").Replace(n))
+			}
+			sc.Ops = append(sc.Ops, Op{Kind: "change", Path: n, Edits: []Edit{{Full: true, Text: text}}})
 			if r.Intn(4) == 0 && !faulted {
 				// unsaved edit, then activity elsewhere, then a dirty-point check
 				o := names[r.Intn(len(names))]
